@@ -70,7 +70,10 @@ def judge(check, scenarios, name, trace, runs, v, module, consts, allow_relax=Tr
 
     def replay_of(run, extra):
         s = dict(by_id[run["scn"]])
-        s["explore"] = {"mode": "replay", "schedules": [run["choices"]]}
+        if "free" in s:
+            extra = dict(extra, recorded_only=True)     # real concurrency cannot be re-executed; the recorded history is re-judged
+        else:
+            s["explore"] = {"mode": "replay", "schedules": [run["choices"]]}
         d = {"scenario": s, "run": run, "events": extract_run(trace, run), "module": module, "consts": {k: tla_val(x) for k, x in consts.items()}}
         d.update(extra)
         return d
